@@ -409,7 +409,11 @@ fn agent_case(rep: &mut Report, r: &mut Prng, idx: u64, seed: u64) {
         "AS65000", "AS-FOO", "AS-FOO AND NOT {10.0.0.0/8^+}", "{192.0.2.0/24^+, 2001:db8::/32^48-64}", "RS-BAR OR AS65001",
         "AS-FOO AND <^AS65000+$>", "FLTR-X OR (AS1 AND {0.0.0.0/0^8-24})", "AS65000:AS-CUSTOMERS", "ANY", "NOT ANY",
     ];
-    let name = {
+    let name = if r.chance(1, 6) {
+        // a name whose characters spell an entity or character reference: "AT&amp;T" is a
+        // seven-character name, not a spelling of "AT&T"
+        (*r.pick(&["AT&amp;T-in", "lt-&lt;-peer", "tab&#9;sep", "&quot;x&quot;", "a&amp;b<c", "&#x41;S65000", "x&apos;y", "&amp;", "p&gt;q&amp;amp;r"])).to_string()
+    } else {
         let v = gen_text(r, false);
         if v.is_empty() { "p".to_string() } else { v }
     };
